@@ -16,6 +16,7 @@
  */
 
 #include <algorithm>
+#include <cmath>
 #include <functional>
 #include <iomanip>
 #include <string>
@@ -54,9 +55,9 @@ int KillMemoryGrowth<Base>::init(
         // a ratio such as the documented default 1.25, not an integer
         size_t end = 0;
         float v = std::stof(s, &end);
-        if (end != s.size() || !(v >= 0)) {
+        if (end != s.size() || !(v >= 0) || !std::isfinite(v)) {
           throw std::invalid_argument(
-              "min_growth_ratio must be a non-negative number");
+              "min_growth_ratio must be a finite non-negative number");
         }
         return v;
       });
